@@ -28,8 +28,14 @@ type C11Case struct {
 	Enc2      *h.EncSpec `json:"enc2,omitempty"` // second, independently drawn encryption for the twin\'s second assertion
 }
 
-func keyCfg(mode string) h.KeyCfg {
-	e1, e2 := h.CertRef{Key: "E1", Window: "wide"}, h.CertRef{Key: "E2", Window: "wide"}
+func keyCfg(mode string) h.KeyCfg { return keyCfgW(mode, "wide") }
+
+// keyCfgW: the SP decryption key E1 with its certificate of window w, configured as mode says.
+func keyCfgW(mode, w string) h.KeyCfg {
+	if w == "" {
+		w = "wide"
+	}
+	e1, e2 := h.CertRef{Key: "E1", Window: w}, h.CertRef{Key: "E2", Window: "wide"}
 	switch mode {
 	case "tls", "custom":
 		return h.KeyCfg{Mode: mode, Field: e1}
@@ -65,11 +71,12 @@ func genC11(t *rapid.T) C11Case {
 		mode = "tls"
 	}
 	c := C11Case{KeyMode: mode, Plain: genPlain(t)}
-	c.Enc = *h.GenEncSpec(h.CertRef{Key: "E1", Window: "wide"}).Draw(t, "enc")
+	to := h.CertRef{Key: "E1", Window: rapid.SampledFrom(h.SPWindows).Draw(t, "spCert")}
+	c.Enc = *h.GenEncSpec(to).Draw(t, "enc")
 	c.Twin = rapid.IntRange(0, 2).Draw(t, "twin") == 0
 	c.Placement = rapid.SampledFrom([]string{"response", "assertions", "both"}).Draw(t, "placement")
 	if c.Twin && rapid.Bool().Draw(t, "secondEncrypted") {
-		c.Enc2 = h.GenEncSpec(h.CertRef{Key: "E1", Window: "wide"}).Draw(t, "enc2")
+		c.Enc2 = h.GenEncSpec(to).Draw(t, "enc2")
 	}
 	if err := c.build(); err != nil {
 		t.Fatalf("harness: %v", err)
@@ -86,7 +93,7 @@ func (c *C11Case) build() error {
 	c.EAXML = string(h.Serialize(ea, h.Layout{}))
 	if c.Twin {
 		sp := h.BaseSP()
-		sp.Enc = keyCfg(c.KeyMode)
+		sp.Enc = keyCfgW(c.KeyMode, c.Enc.To.Window)
 		g := gridGenuine(sp, 2, c.Placement)
 		_, raw, _, err := g.Render()
 		if err != nil {
@@ -127,7 +134,11 @@ func checkC11(c C11Case) h.Outcome {
 		return o
 	}
 	k := h.K("E1")
-	cert := &tls.Certificate{Certificate: [][]byte{k.DER["wide"]}, PrivateKey: k.Signer}
+	w := c.Enc.To.Window
+	if w == "" {
+		w = "wide"
+	}
+	cert := &tls.Certificate{Certificate: [][]byte{k.DER[w]}, PrivateKey: k.Signer}
 	pt, err := ea.DecryptBytes(cert)
 	if err != nil {
 		o.Violation = h.V("roundtrip-error/"+shortAlg(c.Enc.DataAlg)+"/"+shortAlg(c.Enc.Transport)+"/"+shortAlg(c.Enc.Digest), "DecryptBytes failed on a well-formed encryption (%d plaintext bytes): %v", len(c.Plain), err)
@@ -172,7 +183,7 @@ func checkC11(c C11Case) h.Outcome {
 	// (b) twin differential through full validation, with the SP key configured in every way
 	if c.Twin {
 		sp := h.BaseSP()
-		sp.Enc = keyCfg(c.KeyMode)
+		sp.Enc = keyCfgW(c.KeyMode, c.Enc.To.Window)
 		r1, err1 := sp.Build().ValidateEncodedResponse(c.TwinRaw)
 		r2, err2 := sp.Build().ValidateEncodedResponse(c.TwinEnc)
 		if err1 != nil {
